@@ -496,7 +496,14 @@ fn body_of(prog: &WProgram, f: &WFunc) -> String {
     for u in &f.uses {
         if let Some(res) = prog.resources().into_iter().find(|r| &r.name == u) {
             if rich && res.kind == "cbuffer" && res.len != Some(0) {
-                s.push_str(&format!("    acc += {}_v0;\n", res.name));
+                // members of a cbuffer block inside every kind of statement and expression (the Metal exporter rewrites each
+                // of these uses into a member access on the generated global)
+                let m = format!("{}_v0", res.name);
+                s.push_str(&format!(
+                    "    acc += {m};\n    do\n    {{\n        acc.w += ({m}.x > 0.0 ? {m}.y : 1.0);\n    }}\n    while (acc.w < 0.0);\n    switch (word)\n    {{\n        case 0u:\n            acc += {m};\n            break;\n        default:\n            acc.x = ({m}.z, {m}.w);\n            break;\n    }}\n    float4 copy_{n}[2] = {{ {m}, {m}.wzyx }};\n    acc += copy_{n}[1];\n",
+                    m = m,
+                    n = res.name
+                ));
                 continue;
             }
             if rich && res.kind != "cbuffer" {
